@@ -28,6 +28,7 @@ EXPLANATION = (
     "class gives the derived node its own history list (renames are appended in place, so a shared list would let a later rename of one node "
     "re-map the names of another). R1 also requires that every entry of a batch records its mapping unconditionally; R6 now also covers the callable-node executors (current input names vs the function's own parameter names)."
     " (R9) the node cache keys each argument under the function's own parameter name (map_inputs_to_params), the only place the wiring enters the key."
+    " R3 also requires that ordering signals are written under the node's current output names, that every item of a mapping node passes through the output translator, and that a handler's dict answer is translated through the output renames."
 )
 NOT_DECIDED = "That a consistently alpha-renamed graph computes equal values (a statement about runs); rename validation errors (unknown/duplicate names)."
 
